@@ -597,6 +597,19 @@ def run_case(case: dict) -> dict:
                 sess.do(("X", rows[0]["id"], case["k"]))
                 sess.do(("R",))
             run_policy(sess, rng, case.get("policy", "fifo"), max_steps=case.get("max_steps", 200), submit=False)
+        elif kind == "pause_crash":
+            # FIFO for `at` steps, pause, a few more deliveries (RunTask -> PauseTask parks the tasks), unpause, then the
+            # delivery of the first ResumeStage (or whatever is first) is cut after k commits; restart, recovery, drain
+            run_policy(sess, rng, "fifo", max_steps=case["at"])
+            sess.do(("P",))
+            run_policy(sess, rng, "fifo", max_steps=case.get("parked", 3), submit=False)
+            sess.do(("U",))
+            rows = sess.rows()
+            if rows:
+                first = next((r for r in rows if r["type"] == "ResumeStage"), rows[0])
+                sess.do(("X", first["id"], case["k"]))
+                sess.do(("R",))
+            run_policy(sess, rng, case.get("policy", "fifo"), max_steps=case.get("max_steps", 200), submit=False)
         else:
             raise ValueError(kind)
         env = sess.env
@@ -805,6 +818,14 @@ def plan(pid: str, tier: str, rng: random.Random) -> list[dict]:
         for name, spec in rndx[: (30 if thorough else 4)]:
             for at in range(0, 80 if thorough else 48, 2):
                 add(kind="crash", at=at, spec=spec, name=name, drain=("fifo" if at % 4 else "lifo"))
+        if pid == "C01":
+            # the handlers a plain run never reaches: a crash inside SignalStage (stage suspended) and inside ResumeStage
+            for k in range(0, 5):
+                for pers in (True, False):
+                    add(kind="signal_crash", stage=0, k=k, persistent=pers, signals=1, spec=fam["suspend"], name="suspend", policy="fifo")
+                for at in (3, 4, 6, 8):
+                    for n in ("chain3", "multitask"):
+                        add(kind="pause_crash", at=at, k=k, spec=fam[n], name=n, policy="fifo")
     if pid in ("C10", "C06"):
         for n, spec in list(fam.items()) + (rnd[:30] if thorough else rnd[:6]) + (rndx[:30] if thorough else rndx[:6]):
             for at in range(0, 40 if thorough else 24):
@@ -976,6 +997,9 @@ def monitor(pid: str, out: dict, base: dict | None) -> list[Violation]:
         vs += M.m_c05(out)
     if pid == "C01" and kind == "crash" and base is not None:
         vs += M.m_c01(out, base)
+    if pid == "C01" and kind in ("signal_crash", "pause_crash"):
+        # no comparable uninterrupted baseline (the signal / the unpause is part of the history): nothing may be left stuck
+        vs += [v for v in M.m_c05(out) if v.signature.startswith(("stuck", "running-leftover"))]
     if pid == "C10" and kind == "inject" and what in ("recover", "recover_every") and base is not None:
         vs += M.m_outcome(out, base, "recovery sweep in a healthy run", exec_slack={})
     if pid == "C17" and what == "cancel":
